@@ -77,3 +77,6 @@ for u in list(UNITS):
     t.update(tiers=("thorough",), defines=list(u.get("defines") or []) + ["MAXD=%d" % d], unwind=d * d + 2, timeout=1800, cost=100,
              cbmc=list(u.get("cbmc") or []) + ["--object-bits", "12"], bound=u["bound"].replace("1..3", "1..%d" % d))
     UNITS.append(F("%s_d%d" % (name, d), fns, entry=entry[2:], **t))
+
+UNITS.append(U("lndet_protocol", "linalg_lndet.c", "h_lndet", level="B", functions=["a_real_plu_lndet", "a_real_ldl_lndet", "a_real_llt_lndet"], min_obl=5,
+               solver="cvc5", split=4, unwind=12, timeout=300, bound="orders 1..3", key=["lndet"]))
